@@ -153,7 +153,7 @@ func mustAtoa(f []byte, index int) []int {
 	c := bytes.Split(f, []byte{','})
 	a := make([]int, len(c))
 	for i, f := range c {
-		if len(f) == 0 {
+		if len(f) == 0 && i == len(c)-1 {
 			return a[:i]
 		}
 		a[i] = mustAtoi(f, index)
